@@ -215,6 +215,26 @@ theorem C01_gen_sim_stmt (img : Image) (K : Ctx) (hR : RoutinesAt img K.routines
   obtain ⟨k, hk⟩ := (Sim.allGoals img K.routines hR f).stmts K.ret st hst σ σ' o s pc exit stk hsim hpc hc h ho
   exact ⟨k, hk.1, hk.2⟩
 
+/-- **return.**  Inside a routine (context `K` with return address `ret` and caller frames
+`rest`): if the source says the block ends with `return` — from any depth of `if`, loops and
+matrix bodies — the machine arrives one past the return address with exactly the caller's frames
+left, and everything else as the source says (`Sim.RetPost`). -/
+theorem C01_gen_sim_return (img : Image) (K : Ctx) (hR : RoutinesAt img K.routines) (ret : Nat)
+    (rest : List Frame) (hK : K.ret = some (ret, rest)) (b : Block) (hb : FragBlock b) (f : Nat)
+    (σ σ' : S) (s : State) (pc exit : Nat) (stk : List Frame)
+    (hsim : Sim K stk σ s) (hpc : s.pc = (pc : Int))
+    (hc : CodeAt img pc (resolve (genBlock b) pc exit)) (h : execBlock f b σ = (.ret, σ')) :
+    ∃ k, RetPost K σ' (run img k s) ∧ (run img k s).pc = ((ret + 1 : Nat) : Int) ∧
+      (run img k s).stack = rest := by
+  obtain ⟨Kr, KR⟩ := K
+  simp only at hK
+  subst hK
+  obtain ⟨k, hk⟩ := (Sim.allGoals img KR hR f).blockR ret rest b hb σ σ' s pc exit stk hsim hpc hc h
+  obtain ⟨r', rest', hK', hpc', hst'⟩ := hk.ctx
+  simp only [Option.some.injEq, Prod.mk.injEq] at hK'
+  obtain ⟨rfl, rfl⟩ := hK'
+  exact ⟨k, hk, hpc', hst'⟩
+
 /-- **gen_sim_partial.**  For every statement list `b` of the fragment whose code `code` has no
 unresolved `break` (`Gen.genProgram b = some code`), every fuel, every source-level state `σ`
 and machine state `s` related by `Sim` at top level, and every image with `code` at `s.pc`:
